@@ -49,6 +49,9 @@ type Scenario struct {
 	Writers [][]Op    `json:"writers"`
 	BoundMs int       `json:"boundMs"`
 	Sched   *SchedCase `json:"sched,omitempty"`
+	// LingerAt: every goroutine reaching this yield point sleeps LingerUs there (widens a window)
+	LingerAt string `json:"lingerAt,omitempty"`
+	LingerUs int    `json:"lingerUs,omitempty"`
 }
 
 type Rec struct {
@@ -282,6 +285,9 @@ func runStress(sc Scenario) (out Outcome) {
 			}
 		}
 		hookMu.Unlock()
+		if sc.LingerAt == point && sc.LingerUs > 0 {
+			time.Sleep(time.Duration(sc.LingerUs) * time.Microsecond)
+		}
 		for _, s := range fire {
 			s.doCancel()
 			if s.spec.LingerUs > 0 {
